@@ -33,7 +33,7 @@ def _one(module, recs, enforced, extra_constants, idx, timeout, invariants, spec
         cfg = os.path.join(d, "trace.cfg")
         _cfg(cfg, enforced, extra_constants, invariants=invariants, spec=spec)
         res = tlc.run(module, cfg, env={"TRACE_FILE": tf}, workers=1, timeout=timeout,
-                      label=f"{module}#shard{idx}")
+                      label=f"{module}#shard{idx}", heap="3g")
         return res
     finally:
         common.rm(d)
